@@ -659,6 +659,7 @@ func (vfs *MemFS) OpenFile(name string, flag int, perm fs.FileMode) (avfs.File, 
 				nd:       child,
 				vfs:      vfs,
 				name:     name,
+				absPath:  pi.Path(),
 				at:       at,
 				openMode: om,
 			}
@@ -718,6 +719,7 @@ func (vfs *MemFS) OpenFile(name string, flag int, perm fs.FileMode) (avfs.File, 
 		nd:       child,
 		vfs:      vfs,
 		name:     name,
+		absPath:  pi.Path(),
 		at:       at,
 		openMode: om,
 	}
